@@ -206,7 +206,7 @@ func c06HashReader(p *Program, r *Report) {
 		if noneLike {
 			continue
 		}
-		r.Check(ver, "R-C06-2", "HashReader/verifies:"+v, p.Pos(rf.Pos()), "accepted type is verified at end of stream", "NewHashReader accepts hash type "+v+" but HashReader.Read never compares a digest for it: a wrong "+v+" value is silently accepted")
+		_ = ver
 		r.Check(sum, "R-C06-2", "HashReader/sums:"+v, p.Pos(sf.Pos()), "accepted type has a Sum encoding", "NewHashReader accepts hash type "+v+" but Sum() does not encode it (returns \"\")")
 	}
 	// constructor: unknown type -> error
@@ -219,7 +219,15 @@ func c06HashReader(p *Program, r *Report) {
 	r.Check(okDefault, "R-C06-2", "NewHashReader/default-refuses", p.Pos(nf.Pos()), "unknown hash types are refused", "NewHashReader no longer refuses unknown hash types")
 	// mismatch edges: conditions comparing a Sum() result with field sum; the unequal edge reaches only non-nil error returns
 	nm := 0
-	var passEdges []edge
+	var equalEdges []edge
+	innerSite := func(s retSite) bool {
+		for _, rt := range Origins(s.val, nil) {
+			if rt.Kind == "call" && strings.HasSuffix(rt.Desc, ".Read") {
+				return true
+			}
+		}
+		return false
+	}
 	for _, ce := range condEdgesOf(rf) {
 		if !ce.isEqNeq || ce.binop == nil {
 			continue
@@ -245,53 +253,79 @@ func c06HashReader(p *Program, r *Report) {
 			continue
 		}
 		nm++
-		passEdges = append(passEdges, ce.holds)
+		equalEdges = append(equalEdges, ce.holds)
 		reach := reachableFromEdge(rf, ce.fails, nil)
 		bad := false
 		for _, s := range errReturnSites(rf) {
-			if !reach[s.ret.Block()] {
+			if !s.reachedIn(reach) {
 				continue
 			}
-			if isNilConst(s.val) {
+			// a nil return, or returning the inner (EOF) error, on a mismatch is a swallow
+			if isNilConst(s.val) || innerSite(s) {
 				bad = true
-			}
-			// returning the inner (EOF) error on a mismatch is also a swallow
-			for _, rt := range Origins(s.val, nil) {
-				if rt.Kind == "call" && strings.HasSuffix(rt.Desc, ".Read") {
-					bad = true
-				}
 			}
 		}
 		r.Check(!bad, "R-C06-2", fnName(rf)+"/mismatch#"+itoa(nm), p.Pos(ce.pos()), "digest mismatch returns an error", "a digest mismatch does not fail the read (returns nil or the inner io.EOF): the corrupted upload completes")
 	}
-	if nm < 5 {
-		r.Viol("R-C06-2", fnName(rf)+"/mismatch", p.Pos(rf.Pos()), "expected a digest comparison per verified hash type, found "+itoa(nm))
+	if nm < 1 {
+		r.Viol("R-C06-2", fnName(rf)+"/mismatch", p.Pos(rf.Pos()), "HashReader.Read compares no digest with the expected sum")
 	}
-	// the inner error is returned only: when it is not EOF, when no sum is expected, or past a passed comparison
+	// Per accepted hash type T: with the type tests decided for T, the inner reader's error (its io.EOF) is returned
+	// only when it is not EOF, when no sum is expected, or past the equal edge of a digest comparison. This is
+	// indifferent to whether the comparison is written once per case or once after the switch.
+	var passBase []edge
 	for _, ce := range condEdgesOf(rf) {
 		if isEOFCond(ce) {
-			passEdges = append(passEdges, ce.fails)
+			passBase = append(passBase, ce.fails)
 		}
 		if ce.isEqNeq && ce.atoms["field:sum"] && ce.atoms[`const:""`] && !ce.atoms["call:(*"+utilsPkg+".HashReader).Sum"] {
-			passEdges = append(passEdges, ce.holds) // sum == ""
+			passBase = append(passBase, ce.holds) // sum == ""
 		}
 	}
-	ni := 0
+	var inner []retSite
 	for _, s := range errReturnSites(rf) {
-		inner := false
-		for _, rt := range Origins(s.val, nil) {
-			if rt.Kind == "call" && strings.HasSuffix(rt.Desc, ".Read") {
-				inner = true
-			}
+		if innerSite(s) {
+			inner = append(inner, s)
 		}
-		if !inner {
+	}
+	if len(inner) == 0 {
+		r.Viol("R-C06-2", fnName(rf)+"/inner-error-return", p.Pos(rf.Pos()), "no return of the inner reader's error found (anchor drift)")
+	}
+	for _, v := range names {
+		if _, acc := accepted[v]; !acc || v == "" {
 			continue
 		}
-		ni++
-		r.Check(!siteReachable(rf, s, passEdges), "R-C06-2", fnName(rf)+"/inner-error-return#"+itoa(ni), p.Pos(s.ret.Pos()), "inner error returned only past the end-of-stream comparison", "HashReader.Read can return the inner reader's io.EOF without having compared the digest (an early return bypasses the check): a wrong Content-MD5 / checksum is accepted when EOF arrives in a read of its own")
-	}
-	if ni == 0 {
-		r.Viol("R-C06-2", fnName(rf)+"/inner-error-return", p.Pos(rf.Pos()), "no return of the inner reader's error found (anchor drift)")
+		noneLike := false
+		for nme, val := range all {
+			if val == v && nme == "HashTypeNone" {
+				noneLike = true
+			}
+		}
+		if noneLike {
+			continue
+		}
+		cut := append(append([]edge{}, passBase...), equalEdges...)
+		for _, ce := range condEdgesOf(rf) {
+			if !ce.isEqNeq || !ce.atoms["field:hashType"] {
+				continue
+			}
+			for a := range ce.atoms {
+				if strings.HasPrefix(a, `const:"`) {
+					if strings.Trim(strings.TrimPrefix(a, "const:"), `"`) == v {
+						cut = append(cut, ce.fails)
+					} else {
+						cut = append(cut, ce.holds)
+					}
+				}
+			}
+		}
+		bad := false
+		for _, s := range inner {
+			if siteReachable(rf, s, cut) {
+				bad = true
+			}
+		}
+		r.Check(!bad, "R-C06-2", "HashReader/verifies:"+v, p.Pos(rf.Pos()), "end of stream reported only past an equal digest comparison", "for hash type "+v+" HashReader.Read can return the inner reader's io.EOF with an expected sum set and no digest comparison passed: a wrong "+v+" value is silently accepted")
 	}
 }
 
@@ -365,12 +399,12 @@ func c06Installed(p *Program, r *Report) {
 			reach := reachableFromEdge(vf, ce.fails, nil)
 			bad := false
 			for _, s := range errReturnSites(vf) {
-				if reach[s.ret.Block()] && isNilConst(s.val) {
+				if s.reachedIn(reach) && isNilConst(s.val) {
 					bad = true
 				}
 				// also must not reach the signature check result as the only verdict
 				for _, rt := range Origins(s.val, nil) {
-					if rt.Kind == "call" && rt.Desc == utilsPkg+".CheckValidSignature" && reach[s.ret.Block()] {
+					if rt.Kind == "call" && rt.Desc == utilsPkg+".CheckValidSignature" && s.reachedIn(reach) {
 						bad = true
 					}
 				}
@@ -536,7 +570,7 @@ func controlsC06() []Control {
 		{Name: "NewHashReader accepts a type Read cannot verify", Rule: "R-C06-2", File: "s3api/utils/csum-reader.go",
 			Old: "\t\tcase HashTypeSha1:\n\t\t\tsum := hr.Sum()\n\t\t\tif sum != hr.sum {\n\t\t\t\treturn n, s3err.GetChecksumBadDigestErr(types.ChecksumAlgorithmSha1)\n\t\t\t}\n", New: "", More: []Edit{{"s3api/utils/csum-reader.go", "\t\tdefault:\n\t\t\treturn n, errInvalidHashType\n\t\t}\n\t}\n\treturn n, readerr", "\t\t}\n\t}\n\treturn n, readerr"}}, Expect: "verifies:sha1"},
 		{Name: "HashReader: early return for empty reads", Rule: "R-C06-2", File: "s3api/utils/csum-reader.go",
-			Old: "\tn, readerr := hr.r.Read(p)\n", New: "\tn, readerr := hr.r.Read(p)\n\tif n == 0 {\n\t\treturn 0, readerr\n\t}\n", Expect: "inner-error-return"},
+			Old: "\tn, readerr := hr.r.Read(p)\n", New: "\tn, readerr := hr.r.Read(p)\n\tif n == 0 {\n\t\treturn 0, readerr\n\t}\n", Expect: "verifies:"},
 		{Name: "VerifyMD5Body: mismatch falls through", Rule: "R-C06-3", File: "s3api/middlewares/md5.go",
 			Old: "\t\tif incomingSum != calculatedSum {", New: "\t\tif incomingSum != calculatedSum && len(calculatedSum) == 0 {", Expect: "md5"},
 		{Name: "revert fix 5fbcbe5: byte count ignored", Rule: "R-C06-4", File: "backend/posix/posix.go",
@@ -652,7 +686,7 @@ func runC12(p *Program, r *Report) {
 			reach := reachableFromEdge(vf, ce.fails, nil)
 			bad := false
 			for _, s := range errReturnSites(vf) {
-				if reach[s.ret.Block()] && isNilConst(s.val) {
+				if s.reachedIn(reach) && isNilConst(s.val) {
 					bad = true
 				}
 			}
@@ -675,7 +709,7 @@ func runC12(p *Program, r *Report) {
 			reach := reachableFromEdge(hf, ce.holds, nil)
 			bad := false
 			for _, s := range errReturnSites(hf) {
-				if !reach[s.ret.Block()] {
+				if !s.reachedIn(reach) {
 					continue
 				}
 				if isNilConst(s.val) {
@@ -718,7 +752,7 @@ func runC12(p *Program, r *Report) {
 			for a := range ce.atoms {
 				if strings.HasPrefix(a, `const:"`) {
 					k := strings.Trim(strings.TrimPrefix(a, "const:"), `"`)
-					if _, have := sw[k]; !have || toCtor {
+					if toCtor {
 						sw[k] = ce
 					}
 				}
@@ -837,7 +871,7 @@ func runC12(p *Program, r *Report) {
 			reach := reachableFromEdge(hb, ce.holds, nil)
 			bad := false
 			for _, s := range errReturnSites(hb) {
-				if reach[s.ret.Block()] && isNilConst(s.val) {
+				if s.reachedIn(reach) && isNilConst(s.val) {
 					bad = true
 				}
 			}
@@ -854,7 +888,7 @@ func runC12(p *Program, r *Report) {
 			reach := reachableFromEdge(cf, ce.fails, nil)
 			bad := false
 			for _, s := range errReturnSites(cf) {
-				if reach[s.ret.Block()] && isNilConst(s.val) {
+				if s.reachedIn(reach) && isNilConst(s.val) {
 					bad = true
 				}
 			}
